@@ -50,10 +50,8 @@ Next == (\E m \in PseudoLegal(b.r) \cup {NullMove} : Make(m)) \/ Unmake
 
 Inv_C05 == Consistent(b)
 Inv_C04 == stk # <<>> => LET t == stk[Len(stk)] IN DoUnmake(b, t.m, t.u) = t.before
-\* (the null move is excluded: no listed property constrains the position a null move produces,
-\*  only that undoing it restores everything - Inv_C04)
-Inv_C03 == (stk # <<>> /\ stk[Len(stk)].m # NullMove) =>
-              LET t == stk[Len(stk)] IN b.r = ApplyMove(t.before.r, t.m)
+\* (Rules!ApplyMove transcribes the code's null move, clock quirk included, so the null move is covered too)
+Inv_C03 == stk # <<>> => LET t == stk[Len(stk)] IN b.r = ApplyMove(t.before.r, t.m)
 Inv_Legal == OppKingSafe(b) => Obl_Legal(b, EpFix)
 Inv_Valid == (stk # <<>> /\ stk[Len(stk)].m \in Legal(stk[Len(stk)].before.r)) => IsValid(b.r)
 =============================================================================
